@@ -8,6 +8,7 @@ import (
 	"fmt"
 	"os"
 	"path/filepath"
+	"runtime"
 	"sort"
 	"strconv"
 	"strings"
@@ -126,7 +127,40 @@ func New(id, tier string) *Ctx {
 			}
 		}
 	}
+	go c.watchdog()
 	return c
+}
+
+// watchdog ends the check when it exceeds its time or memory budget - code under judgement
+// that loops forever or produces output without end must not hang or kill the check. What
+// was observed until then stands: violations already reported give exit 1, otherwise the run
+// is inconclusive (exit 2). VERIF_DEADLINE (seconds) and VERIF_MEMLIMIT (MiB) override.
+func (c *Ctx) watchdog() {
+	deadline := 25 * time.Minute
+	if c.Thorough() {
+		deadline = 4 * time.Hour
+	}
+	if v, err := strconv.Atoi(os.Getenv("VERIF_DEADLINE")); err == nil && v > 0 {
+		deadline = time.Duration(v) * time.Second
+	}
+	memLimit := uint64(40 << 30)
+	if v, err := strconv.Atoi(os.Getenv("VERIF_MEMLIMIT")); err == nil && v > 0 {
+		memLimit = uint64(v) << 20
+	}
+	for {
+		time.Sleep(2 * time.Second)
+		var ms runtime.MemStats
+		runtime.ReadMemStats(&ms)
+		switch {
+		case time.Since(c.Start) > deadline:
+			c.Inconclusive("check exceeded its deadline of %v", deadline)
+		case ms.HeapAlloc > memLimit:
+			c.Inconclusive("check exceeded its memory budget (%d MiB in use)", ms.HeapAlloc>>20)
+		default:
+			continue
+		}
+		c.Finish()
+	}
 }
 
 // Thorough reports whether the thorough tier runs.
